@@ -299,6 +299,22 @@ fn kf_xlsx_prefixed_workbook_pr() {
 }
 
 #[test]
+fn kf_xlsx_extension_workbook_pr_keeps_1904() {
+    // what Excel writes: the real workbookPr, then <x15:workbookPr chartTrackingRefBase="1"/> inside extLst
+    let wbx = r#"<?xml version="1.0" encoding="UTF-8"?><workbook xmlns="http://schemas.openxmlformats.org/spreadsheetml/2006/main" xmlns:r="http://schemas.openxmlformats.org/officeDocument/2006/relationships"><workbookPr date1904="1"/><sheets><sheet name="Sheet1" sheetId="1" r:id="rId1"/></sheets><extLst><ext uri="{140A7094-0E35-4892-8432-C4D2E57EDEB5}" xmlns:x15="http://schemas.microsoft.com/office/spreadsheetml/2010/11/main"><x15:workbookPr chartTrackingRefBase="1"/></ext></extLst></workbook>"#;
+    let styles = r#"<?xml version="1.0" encoding="UTF-8"?><styleSheet xmlns="http://schemas.openxmlformats.org/spreadsheetml/2006/main"><cellXfs count="2"><xf numFmtId="0"/><xf numFmtId="14"/></cellXfs></styleSheet>"#;
+    let sh = sheet(r#"<row r="1"><c r="A1" s="1"><v>100</v></c></row>"#);
+    let bytes = rezip(&minimal_xlsx(&sh, None, Some(wbx)), &[("xl/styles.xml", styles.as_bytes().to_vec())]);
+    let mut wb: Xlsx<_> = Xlsx::new(Cursor::new(bytes)).unwrap();
+    let r = wb.worksheet_range("Sheet1").unwrap();
+    assert_eq!(
+        r.get_value((0, 0)),
+        Some(&Data::DateTime(ExcelDateTime::new(100.0, ExcelDateTimeType::DateTime, true))),
+        "an extension <x15:workbookPr> without date1904 must not reset the 1904 date system"
+    );
+}
+
+#[test]
 fn kf_xlsx_prefixed_rich_shared_string() {
     let sst = r#"<?xml version="1.0" encoding="UTF-8"?><x:sst xmlns:x="http://schemas.openxmlformats.org/spreadsheetml/2006/main" count="1" uniqueCount="1"><x:si><x:r><x:t>ab</x:t></x:r><x:r><x:t>cd</x:t></x:r></x:si></x:sst>"#;
     let sh = sheet(r#"<row r="1"><c r="A1" t="s"><v>0</v></c></row>"#);
